@@ -65,7 +65,7 @@ type Ref struct {
 	Keys map[string]*keyRef
 	Secs map[string]int
 	// lost[x]: x's last tenure ended by expiry and the key was then taken by someone else
-	// (only used to name the situation of a violation; never influences a verdict).
+	// (only used in the description of a violation; never influences a verdict or a class).
 	lost map[string]bool
 }
 
@@ -158,9 +158,6 @@ func (r *Ref) apply(o Op) (want bool, situation string) {
 			}
 		default:
 			situation = "held-by-other"
-			if r.lost[o.L] {
-				situation = "held-by-other-after-own-expiry"
-			}
 		}
 	}
 	return want, situation
